@@ -5,6 +5,8 @@ import Norad.Props.C19
 #print axioms Par.par_load_items
 #print axioms Par.seq_load_closed
 #print axioms Par.par_load_eq_seq
+#print axioms Par.par_load_eq_seq_sorted
+#print axioms Par.par_load_eq_seq_btree
 #print axioms Par.par_load_fails_iff_seq_fails
 #print axioms Par.par_font_eq_seq
 #print axioms Par.par_save_eq_seq
